@@ -624,6 +624,17 @@ class StarArgs(ast.NodeTransformer):
         return node
 
 
+class AttrToFunc(ast.NodeTransformer):
+    """x.shape / x.ndim / x.size -> np.shape(x) / np.ndim(x) / np.size(x) for every receiver but `self` (constructor parameters of that
+    name) and modules (only in files that import numpy as np; loads only)"""
+
+    def visit_Attribute(self, node):
+        self.generic_visit(node)
+        if node.attr in ("shape", "ndim", "size") and isinstance(node.ctx, ast.Load) and not (isinstance(node.value, ast.Name) and node.value.id in ("self", "np", "numpy", "xr", "pd")):
+            return ast.Call(func=ast.Attribute(value=ast.Name(id="np", ctx=ast.Load()), attr=node.attr, ctx=ast.Load()), args=[node.value], keywords=[])
+        return node
+
+
 class SplitChain(ast.NodeTransformer):
     """a < b < c -> a < b and b < c   when b is a name, attribute, subscript of names or constant (evaluating it twice changes nothing)"""
 
@@ -639,7 +650,7 @@ class SplitChain(ast.NodeTransformer):
 
 
 EXTRA = {"demorgan": DeMorgan, "nest-and": NestAnd, "merge-nested": MergeNested, "split-or": SplitOr, "flag-guard": FlagGuard, "any-all-dual": AnyAllDual,
-         "comp-to-loop": CompToLoop, "return-temp": ReturnTemp, "ifexp-to-if": IfExpToIf, "kwargs-dict": KwargsDict, "star-args": StarArgs, "split-chain": SplitChain}
+         "comp-to-loop": CompToLoop, "return-temp": ReturnTemp, "ifexp-to-if": IfExpToIf, "kwargs-dict": KwargsDict, "star-args": StarArgs, "split-chain": SplitChain, "attr-to-func": AttrToFunc}
 
 COMPOSED = ("keywordize", "rename", "commute", "invert-if", "yoda", "method-to-function", "else-after-return", "reverse-keywords", "fstring", "unpack-to-index",
             "demorgan", "split-or", "flag-guard", "any-all-dual", "comp-to-loop", "return-temp", "kwargs-dict", "split-chain")
@@ -687,7 +698,7 @@ def transformed(kind, root="/repo/verde", texts=None):
                 tree = IfToIfExp().visit(tree)
             if k == "explicit-defaults":
                 tree = ExplicitDefaults().visit(tree)
-            if k in EXTRA:
+            if k in EXTRA and not (k == "attr-to-func" and not any(isinstance(n, ast.Import) and any(a.name == "numpy" and a.asname == "np" for a in n.names) for n in tree.body)):
                 tree = EXTRA[k]().visit(tree)
             if k == "extract-helper":
                 xh = ExtractHelper(set())
